@@ -353,6 +353,7 @@ def replay_once(body, values, params, claim_name, rel_tol=1e-9, timeout_s=60):
         held, detail = env.results[claim_name]
         return ('held' if held else 'violated'), detail
     return 'missing', {'claims_seen': sorted(env.results)[:20],
+                       'failed_seen': {k: _jsonable(v[1]) for k, v in list(env.results.items())[:40] if not v[0]},
                        'exc': env.results.get('__exception__', (None, {}))[1]}
 
 
@@ -461,6 +462,12 @@ def run_instance(body, params=None, label='', max_paths=256, max_depth=64,
                             res, model = 'unsat', None
                     else:
                         rec['errors'].append('derive step %r uses a hypothesis that was not established' % cl.name)
+                if res is None and getattr(p, 'pc_base', None) is not None:
+                    # identities do not need the branch decisions of the path: try without them first (sound: fewer
+                    # assumptions can only turn unsat into sat/unknown; only unsat is accepted here)
+                    r0, _m0 = core.prove(list(p.pc_base) + hyps, cl.expr, 8000)
+                    if r0 == 'unsat':
+                        res, model = 'unsat', None
                 if res is None and p.pc_weak is not None:
                     # abstraction ladder: first without the nonlinear defining equations
                     r0, _m0 = core.prove(list(p.pc_weak) + hyps, cl.expr, min(timeout_ms or 60000, 20000))
